@@ -26,6 +26,7 @@ func TestMain(m *testing.M) {
 	vh.Rule("also: Info.DebugLogPackages is on in a quarter of the cases (every package is printed while it is sent / received)")
 	vh.QuietLog()
 	vh.Rule("also: a callback that cancels the context of its own call and then fails")
+	vh.Rule("also: packets of type NORMAL; responses with an ENVCHANGE whose packet size the library refuses (not a number, not a possible size), anywhere in the response, any packetisation: exactly one channel error, members in front reported once, packet size unchanged, everything else delivered with one final DONE, the next response complete")
 	vh.Main(m, "C03")
 }
 
